@@ -150,6 +150,10 @@ class DispatchableMessageQueue(Stoppable):
         try:
             return await self._recv_task
         except asyncio.CancelledError:
-            raise EndOfQueue()  # pylint: disable=W0707
+            if self._closed:
+                # the queue was stopped while we were waiting
+                raise EndOfQueue()  # pylint: disable=W0707
+            # the caller itself was cancelled (or timed out): let that propagate
+            raise
         finally:
             self._recv_task = await stop_task(self._recv_task)
